@@ -293,7 +293,7 @@ const (
 	memLimitkB  = 200 << 10
 )
 
-var maxOverrun, maxRSSRatio float64
+var maxOverrun, maxRSSRatio, maxOverrunClean, maxRSSRatioClean float64
 
 // judge one child run; kind is the program family used in signatures
 func judge(c *Ctx, kind string, sp childSpec, r childResult, wantGuard string) {
@@ -309,6 +309,18 @@ func judge(c *Ctx, kind string, sp childSpec, r childResult, wantGuard string) {
 	}
 	if r.overrun > maxOverrun {
 		maxOverrun = r.overrun
+	}
+	finding := false
+	for _, f := range []string{"nested-source-if", "nested-source-lambda", "frontend-huge-parens", "ext-regsub-quadratic", "deep-stack-default-depth"} {
+		finding = finding || strings.HasPrefix(kind, f)
+	}
+	if !finding {
+		if r.overrun > maxOverrunClean {
+			maxOverrunClean = r.overrun
+		}
+		if rr := float64(r.peakkB) / float64(memLimitkB); r.memLimit == memLimitStr && rr > maxRSSRatioClean {
+			maxRSSRatioClean = rr
+		}
 	}
 	if r.overrun > slackMs {
 		c.Fail(kind+":deadline-overrun", cs, fmt.Sprintf("evaluation took %.0f ms with a %d ms deadline (front end alone %.0f ms, source %d bytes)",
@@ -734,6 +746,8 @@ func runC09(c *Ctx) {
 	}
 	c.Extra["max_deadline_overrun_ms"] = maxOverrun
 	c.Extra["max_rss_over_limit_ratio"] = maxRSSRatio
+	c.Extra["max_deadline_overrun_ms_outside_finding_families"] = maxOverrunClean
+	c.Extra["max_rss_over_limit_ratio_outside_finding_families"] = maxRSSRatioClean
 	c.Extra["children"] = childSeq
 	c.Extra["slack_ms"] = slackMs
 	c.Extra["rss_rule"] = fmt.Sprintf("peak RSS <= %.0f x GOMEMLIMIT + %d kB", rssFactor, rssBasekB)
